@@ -172,3 +172,43 @@ extern "C" void h_keepalive(void)
 	vp_note(ol);
 	vp_reach(2);
 }
+
+// bodies around the 16000-byte receive/file block: p0 = request body size, p1 = response body size (0: none), p2 = 1: the
+// response is a file.  The bytes at the block edges (and first/last) are symbolic, the rest is a concrete pattern.
+static byte g_big[2][33000]; static int g_bign[2]; static int g_bigfile;
+struct BigSrv : public HttpServer
+{
+	void serve(HttpRequest& req, HttpResponse& resp)
+	{
+		g_served++;
+		vp_assert(req.body().length() == g_bign[0], "handler observes the length of a body that spans several blocks");
+		int n = req.body().length() < g_bign[0] ? req.body().length() : g_bign[0];
+		int bad = 0; for (int i = 0; i < n; i++) if (req.body()[i] != g_big[0][i]) bad++;
+		vp_assert(bad == 0, "handler observes every byte of a body that spans several blocks");
+		if (g_bigfile) resp.put(File("big.bin")); else resp.put(ByteArray(g_big[1], g_bign[1]));
+	}
+};
+static void big_server_side(int fd) { BigSrv srv; SocketServer* base = &srv; Socket s(fd); base->serve(s); }
+extern "C" void h_big(void)
+{
+	g_bign[0] = vp_param(0); g_bign[1] = vp_param(1); g_bigfile = vp_param(2); g_served = 0;
+	for (int k = 0; k < 2; k++) {
+		int n = g_bign[k];
+		for (int i = 0; i < n; i++) g_big[k][i] = (byte)(i * 31 + 7 + k);
+		int at[5] = { 0, 15999, 16000, 16001, n - 1 };
+		for (int j = 0; j < 5; j++) if (at[j] >= 0 && at[j] < n) g_big[k][at[j]] = nondet_u8();
+	}
+	if (g_bigfile) { File f("big.bin", File::WRITE); f.write(g_big[1], g_bign[1]); }
+	vp_sock_set_server(big_server_side);
+	HttpRequest req(g_bign[0] ? "POST" : "GET", "http://host.example/big");
+	if (g_bign[0]) req.put(ByteArray(g_big[0], g_bign[0]));
+	HttpResponse res = Http::request(req);
+	vp_assert(g_served == 1, "the handler ran exactly once");
+	vp_assert(res.code() == 200, "status 200");
+	vp_assert(res.body().length() == g_bign[1], "client observes the length of a body that spans several blocks");
+	int n = res.body().length() < g_bign[1] ? res.body().length() : g_bign[1];
+	int bad = 0; for (int i = 0; i < n; i++) if (res.body()[i] != g_big[1][i]) bad++;
+	vp_assert(bad == 0, "client observes every byte of a body that spans several blocks");
+	vp_note(res.body().length());
+	vp_reach(3);
+}
